@@ -1,16 +1,19 @@
 #!/bin/bash
 # Confirm a seeded change in its scratch worktree: applies cleanly, compiles, the unedited test suite
 # passes with it, and its demonstration fails with it and passes without it.
-# usage: confirm_seed.sh <worktree> <seed dir> <demo test name (cargo --test) or shell command>
+# usage: confirm_seed.sh <worktree> <seed dir> <demo command>
 set -u
 wt="$1"; sd="$2"; demo="$3"
 cd "$wt" || exit 2
-git checkout -q -- . ; git clean -fdq src 2>/dev/null
+clean() { git checkout -q -- . ; git clean -fdq src test 2>/dev/null; }
+clean
 git apply --check "$sd/patch.diff" && echo "applies: yes" || { echo "applies: NO"; exit 1; }
 git apply "$sd/patch.diff"
-cargo test --workspace --offline 2>&1 | grep -E "^test result|FAILED|error(\[|:)" | sort | uniq -c | head -8
+echo "--- unedited test suite WITH change:"
+cargo test --workspace --offline 2>&1 | grep -E "^test result|FAILED|^error" | sort | uniq -c | grep -v " 0 passed; 0 failed" | head -6
 [ -f "$sd/demo.diff" ] && git apply "$sd/demo.diff"
-echo "--- demo WITH change:"; bash -c "$demo" 2>&1 | grep -E "^test result|panicked|FAILED|PASS|FAIL|passed|failed" | head -5
-git checkout -q -- . ; 
-echo "--- demo WITHOUT change:"; bash -c "$demo" 2>&1 | grep -E "^test result|panicked|FAILED|PASS|FAIL|passed|failed" | head -5
-git checkout -q -- . ; git clean -fdq src 2>/dev/null
+echo "--- demo WITH change:"; bash -c "$demo" 2>&1 | grep -E "^test result|FAILED|PASS|FAIL:|exit" | head -4
+clean
+[ -f "$sd/demo.diff" ] && git apply "$sd/demo.diff"
+echo "--- demo WITHOUT change:"; bash -c "$demo" 2>&1 | grep -E "^test result|FAILED|PASS|FAIL:|exit" | head -4
+clean
